@@ -149,52 +149,50 @@ inductive Num where
   deriving DecidableEq, Repr
 
 /-- `isspace` in the C locale -/
-def isSpace (c : Char) : Bool :=
-  c = ' ' || c = '\t' || c = '\n' || c = '\x0b' || c = '\x0c' || c = '\r'
+def isSpace (c : Char) : Bool := decide (c ∈ [' ', '\t', '\n', '\x0b', '\x0c', '\r'])
 
-def isDig (c : Char) : Bool := '0' ≤ c && c ≤ '9'
-def isHex (c : Char) : Bool := isDig c || ('a' ≤ c && c ≤ 'f') || ('A' ≤ c && c ≤ 'F')
+def isDig (c : Char) : Bool := decide (c ∈ "0123456789".toList)
+def isHex (c : Char) : Bool := isDig c || decide (c ∈ "abcdefABCDEF".toList)
 /-- n-char of `nan(n-char-sequence)` -/
-def isNChar (c : Char) : Bool := isDig c || ('a' ≤ c && c ≤ 'z') || ('A' ≤ c && c ≤ 'Z') || c = '_'
+def isNChar (c : Char) : Bool :=
+  decide (c ∈ "0123456789abcdefghijklmnopqrstuvwxyzABCDEFGHIJKLMNOPQRSTUVWXYZ_".toList)
 
 /-- value of a (hexa)decimal digit -/
 def digVal (c : Char) : Nat :=
   if isDig c then c.toNat - '0'.toNat
-  else if 'a' ≤ c && c ≤ 'f' then c.toNat - 'a'.toNat + 10
+  else if decide (c ∈ "abcdef".toList) then c.toNat - 'a'.toNat + 10
   else c.toNat - 'A'.toNat + 10
 
 /-- Horner value of a digit string in base `b` -/
 def natOf (b : Nat) (ds : List Char) : Nat := ds.foldl (fun a d => a * b + digVal d) 0
 
-/-- ASCII lower-casing (for the case-insensitive keywords) -/
-def lower (c : Char) : Char := if 'A' ≤ c && c ≤ 'Z' then Char.ofNat (c.toNat + 32) else c
+/-- ASCII lower-casing (for the case-insensitive keywords and exponent markers) -/
+def lower (c : Char) : Char :=
+  if c ∈ "ABCDEFGHIJKLMNOPQRSTUVWXYZ".toList then Char.ofNat (c.toNat + 32) else c
 
 /-- optional sign: `(negative, rest)` -/
 def signOf : List Char → Bool × List Char
-  | '+' :: r => (false, r)
-  | '-' :: r => (true, r)
-  | r => (false, r)
+  | [] => (false, [])
+  | c :: r => if c = '+' then (false, r) else if c = '-' then (true, r) else (false, c :: r)
 
 /-- exponent part, complete: `""` ↦ 0, `[mk][+-]?digits+` ↦ its value, anything else rejected -/
 def parseExp (mk : Char) : List Char → Option Int
   | [] => some 0
   | c :: rest =>
-    if lower c = mk then
-      let (neg, ds) := signOf rest
-      if ds ≠ [] ∧ ds.all isDig then
-        some (if neg then - (natOf 10 ds : Int) else (natOf 10 ds : Int))
-      else none
+    if lower c = mk ∧ (signOf rest).2 ≠ [] ∧ (signOf rest).2.all isDig = true then
+      some (if (signOf rest).1 then - (natOf 10 (signOf rest).2 : Int) else (natOf 10 (signOf rest).2 : Int))
     else none
 
 /-- mantissa `digits+ [. digits*] | . digits+` in the digit class `dg`:
 `(digits of integer and fractional part, number of fractional digits, rest)` -/
 def parseMant (dg : Char → Bool) (s : List Char) : Option (List Char × Nat × List Char) :=
   let ip := s.takeWhile dg
-  match s.dropWhile dg with
-  | '.' :: r =>
+  let r0 := s.dropWhile dg
+  if r0.head? = some '.' then
+    let r := r0.drop 1
     let fp := r.takeWhile dg
     if ip = [] ∧ fp = [] then none else some (ip ++ fp, fp.length, r.dropWhile dg)
-  | r => if ip = [] then none else some (ip, 0, r)
+  else if ip = [] then none else some (ip, 0, r0)
 
 /-- decimal floating literal, complete -/
 def parseDec (neg : Bool) (s : List Char) : Option Num :=
@@ -214,11 +212,15 @@ def parseHex (neg : Bool) (s : List Char) : Option Num :=
     | none => none
     | some x => some (.hex neg (natOf 16 ds) (x - 4 * nf))
 
+/-- `q)` with `q` a sequence of n-chars -/
+def nanTail : List Char → Bool
+  | [] => false
+  | c :: r => if r = [] then c = ')' else isNChar c && nanTail r
+
 /-- `nan` suffix: `""` or `(n-char-sequence)` -/
 def nanSuffix : List Char → Bool
   | [] => true
-  | '(' :: r => r ≠ [] && r.getLast? = some ')' && r.dropLast.all isNChar
-  | _ => false
+  | c :: r => c = '(' && nanTail r
 
 /-- what follows white space and sign -/
 def parseBody (neg : Bool) (s : List Char) : Option Num :=
@@ -232,8 +234,6 @@ def parseBody (neg : Bool) (s : List Char) : Option Num :=
 /-- `convert<double>(s)` before rounding to `double`: `none` = `std::invalid_argument` -/
 def convertD (s : List Char) : Option Num :=
   if s = [] then none
-  else
-    let (neg, b) := signOf (s.dropWhile isSpace)
-    parseBody neg b
+  else parseBody (signOf (s.dropWhile isSpace)).1 (signOf (s.dropWhile isSpace)).2
 
 end TfelVerif.C32
